@@ -3,7 +3,8 @@ package execrig
 import (
 	"bytes"
 	"fmt"
-	"math/big"
+	"os"
+	"strings"
 
 	"github.com/lianxiangcloud/linkchain/libs/common"
 	"github.com/lianxiangcloud/linkchain/state"
@@ -25,88 +26,11 @@ func diskState(r *txgen.Replica, disk *simdb.Disk, h uint64) (*state.StateDB, er
 	return state.New(res.TrieRoot, state.NewKeyValueDBWithCache(disk.DB(simnode.DBState), 0, r.Spec.IsTrie, h))
 }
 
-// lifeView is what one replica's disk says about the life-cycle contracts:
-// for every address the storage model knows (alive or not) code presence,
-// nonce, coin balance, token balances and every slot any incarnation touched.
-//
-// Slots of addresses whose contract self-destructed (the address may exist
-// again as a plain account after a transfer to it) and of contracts created
-// again at such an address are kept apart ("after destruction"): they are
-// where the finding keyDestroyedStorage shows.
-type lifeView struct {
-	text       []byte   // canonical rendering of everything but the slots after destruction (replica-vs-replica comparison)
-	after      []byte   // the slots after destruction
-	diffs      []string // disagreements with the model
-	afterDiffs []string // disagreements with the model in slots after destruction
-}
-
 // keyDestroyedStorage is the key of the finding "flat key/value mode keeps the
 // storage of a self-destructed contract; it is visible again as soon as an
-// account exists at the address".
+// account exists at the address". It shows in the slots txgen.ReadLife keeps
+// apart as "after destruction".
 const keyDestroyedStorage = "diverge/storage-mode/recreated-account-sees-destroyed-storage"
-
-func readLife(st *state.StateDB, snap *txgen.LifeSnapshot) *lifeView {
-	v := &lifeView{}
-	var b, ab bytes.Buffer
-	for _, a := range snap.Addrs {
-		code := st.GetCodeSize(a)
-		fmt.Fprintf(&b, "%x code=%d nonce=%d bal=%v tokens=[", a[:], code, st.GetNonce(a), st.GetBalance(a))
-		for _, tv := range st.GetTokenBalances(a) {
-			fmt.Fprintf(&b, "%x:%v,", tv.TokenAddr[:], tv.Value)
-		}
-		b.WriteString("]")
-		if (code > 0) != snap.Alive[a] {
-			v.diffs = append(v.diffs, fmt.Sprintf("code-presence: contract %x has %d bytes of code, model says alive=%v", a[:6], code, snap.Alive[a]))
-		}
-		after := !snap.Alive[a] || snap.Births[a] > 1
-		for _, k := range sortedKeys(snap.Slots[a]) {
-			got := new(big.Int).SetBytes(st.GetState(a, txgen.SlotHash(k)))
-			want := snap.Slots[a][k]
-			d := ""
-			if got.Text(16) != want {
-				d = fmt.Sprintf("slot-value: contract %x (alive=%v, creations at this address %d) slot %x reads %s, model %s", a[:6], snap.Alive[a], snap.Births[a], trimKey(k), got.Text(16), want)
-			}
-			if after {
-				fmt.Fprintf(&ab, "%x %x=%s;", a[:], trimKey(k), got.Text(16))
-				if d != "" {
-					v.afterDiffs = append(v.afterDiffs, d)
-				}
-				continue
-			}
-			fmt.Fprintf(&b, " %x=%s", trimKey(k), got.Text(16))
-			if d != "" {
-				v.diffs = append(v.diffs, d)
-			}
-		}
-		b.WriteString(";")
-	}
-	v.text, v.after = b.Bytes(), ab.Bytes()
-	return v
-}
-
-func trimKey(k string) []byte {
-	t := bytes.TrimLeft([]byte(k), "\x00")
-	if len(t) == 0 {
-		return []byte{0}
-	}
-	if len(t) > 6 {
-		t = t[:6]
-	}
-	return t
-}
-
-func sortedKeys(m map[string]string) []string {
-	out := make([]string, 0, len(m))
-	for k := range m {
-		out = append(out, k)
-	}
-	for i := 1; i < len(out); i++ {
-		for j := i; j > 0 && out[j] < out[j-1]; j-- {
-			out[j], out[j-1] = out[j-1], out[j]
-		}
-	}
-	return out
-}
 
 // lifeDiffs lists the disagreements between the replica's disk at height h and the model.
 func lifeDiffs(r *txgen.Replica, disk *simdb.Disk, h uint64, snap *txgen.LifeSnapshot) []string {
@@ -114,7 +38,7 @@ func lifeDiffs(r *txgen.Replica, disk *simdb.Disk, h uint64, snap *txgen.LifeSna
 	if err != nil {
 		return []string{"state unreadable: " + err.Error()}
 	}
-	return readLife(st, snap).diffs
+	return txgen.ReadLife(st, snap).Diffs
 }
 
 // lifeAfterDiffs is lifeDiffs for the slots after destruction.
@@ -123,7 +47,7 @@ func lifeAfterDiffs(r *txgen.Replica, disk *simdb.Disk, h uint64, snap *txgen.Li
 	if err != nil {
 		return []string{"state unreadable: " + err.Error()}
 	}
-	return readLife(st, snap).afterDiffs
+	return txgen.ReadLife(st, snap).AfterDiffs
 }
 
 // lifeInst is one instance (persistent replica or ephemeral repetition) that
@@ -132,20 +56,6 @@ type lifeInst struct {
 	name string
 	r    *txgen.Replica
 	disk *simdb.Disk
-}
-
-func firstDiff(a, b []byte) string {
-	as, bs := bytes.Split(a, []byte(";")), bytes.Split(b, []byte(";"))
-	for i := range as {
-		if i >= len(bs) || !bytes.Equal(as[i], bs[i]) {
-			o := []byte("<nothing>")
-			if i < len(bs) {
-				o = bs[i]
-			}
-			return fmt.Sprintf("%s  VERSUS  %s", as[i], o)
-		}
-	}
-	return "lengths differ"
 }
 
 // lifeOracle runs after every instance has committed the block and the
@@ -166,43 +76,50 @@ func (w *world) lifeOracle(h uint64, insts []lifeInst, items []*txgen.Item) bool
 		c.Probe("life/receipt-status-not-expected-by-model")
 		m.StatusMismatch = 0
 	}
-	if len(m.C) == 0 {
+	// debugging aid (sensitivity of the single oracle layers): C05_SKIP=disk
+	// leaves only the comparison of execution results, C05_SKIP=model only the
+	// comparisons between instances
+	skip := os.Getenv("C05_SKIP")
+	if len(m.C) == 0 || strings.Contains(skip, "disk") {
 		return true
 	}
 	snap := m.Snapshot()
-	var first *lifeView
+	var first *txgen.LifeView
 	for i, in := range insts {
 		st, err := diskState(in.r, in.disk, h)
 		if err != nil {
 			c.Violate("diverge", "state-unreadable/after-commit", "height %d: the state %s committed cannot be opened from its disk: %v", h, in.name, err)
 			return false
 		}
-		v := readLife(st, snap)
+		v := txgen.ReadLife(st, snap)
+		if strings.Contains(skip, "model") {
+			v.Diffs, v.AfterDiffs = nil, nil
+		}
 		c.Evals(1)
 		mode := map[bool]string{true: "trie", false: "kv"}[in.r.Spec.IsTrie]
-		if len(v.diffs) > 0 {
+		if len(v.Diffs) > 0 {
 			what := "slot-value"
-			if v.diffs[0][:4] == "code" {
+			if v.Diffs[0][:4] == "code" {
 				what = "code-presence"
 			}
-			c.Violate("model", "model/contract-storage/"+what, "height %d, instance %s (%s mode), state read back from disk: %s; block: %s", h, in.name, mode, v.diffs[0], describe(items))
+			c.Violate("model", "model/contract-storage/"+what, "height %d, instance %s (%s mode), state read back from disk: %s; block: %s", h, in.name, mode, v.Diffs[0], describe(items))
 			return false
 		}
 		if i == 0 {
 			first = v
-			if len(v.afterDiffs) > 0 {
-				c.Violate("model", keyDestroyedStorage, "height %d, instance %s (%s mode), state read back from disk: %s", h, in.name, mode, v.afterDiffs[0])
+			if len(v.AfterDiffs) > 0 {
+				c.Violate("model", keyDestroyedStorage, "height %d, instance %s (%s mode), state read back from disk: %s", h, in.name, mode, v.AfterDiffs[0])
 			}
 			continue
 		}
-		if !bytes.Equal(first.text, v.text) {
-			c.Violate("diverge", "diverge/contract-state-on-disk", "height %d: the committed state of the contracts read back from disk differs between %s and %s (%s mode): %s; block: %s", h, insts[0].name, in.name, mode, firstDiff(first.text, v.text), describe(items))
+		if !bytes.Equal(first.Text, v.Text) {
+			c.Violate("diverge", "diverge/contract-state-on-disk", "height %d: the committed state of the contracts read back from disk differs between %s and %s (%s mode): %s; block: %s", h, insts[0].name, in.name, mode, txgen.FirstLifeDiff(first.Text, v.Text), describe(items))
 			return false
 		}
-		if !bytes.Equal(first.after, v.after) || len(v.afterDiffs) > 0 {
-			d := firstDiff(first.after, v.after)
-			if len(v.afterDiffs) > 0 {
-				d = v.afterDiffs[0]
+		if !bytes.Equal(first.After, v.After) || len(v.AfterDiffs) > 0 {
+			d := txgen.FirstLifeDiff(first.After, v.After)
+			if len(v.AfterDiffs) > 0 {
+				d = v.AfterDiffs[0]
 			}
 			// known finding: continue (execution is not affected unless code is created at the address again)
 			c.Violate("diverge", keyDestroyedStorage, "height %d: storage of a self-destructed contract is visible again at its address on %s (%s mode) and not on %s: %s", h, in.name, mode, insts[0].name, d)
